@@ -18,7 +18,7 @@ from engine import (Check, tlc_ok, validate_traces, pmap, run, tool_env, BIN,
 import regen
 
 ROLES = ['source', 'output', 'srcdir', 'outdir', 'copy', 'install', 'insthdr',
-         'depfile']
+         'depfile', 'header']
 PUNCT = list('!"#$%&\'()*+,-.:;<=>?@[]^_`{|}~ ')
 
 
@@ -67,7 +67,7 @@ def reference_make(name):
         open(os.path.join(root, src), 'w').write('x')
         open(os.path.join(root, 'Makefile'), 'w').write(
             'all: %s\n%s: %s\n\tcp %s %s\n\t@echo RAN\nclean:\n\trm -f %s\n'
-            % (mk_escape(out, True), mk_escape(out, True),
+            % (mk_escape(out, False), mk_escape(out, True),
                mk_escape(src, False), shq(src).replace('$', '$$'),
                shq(out).replace('$', '$$'), shq(out).replace('$', '$$')))
         return cycle_generic(root, ['make'], os.path.join(root, out),
@@ -151,6 +151,12 @@ def project_for(role, n):
         files['common.h'] = '#define C 1\n'
         bfg = "executable('prog', ['main.c', %r])" % (n + '.c')
         prereq, outs = 'common.h', [('obj', n + '.c')]
+    elif role == 'header':
+        # the name is a header known only through the depfile of main.o
+        files['main.c'] = '// deps: %s.h\nint main(void){return 0;}\n' % n
+        files[n + '.h'] = '#define H 1\n'
+        bfg = "executable('prog', ['main.c'])"
+        prereq, outs = n + '.h', [('obj', 'main.c')]
     elif role == 'install':
         bfg = "install(executable(%r, ['main.c']))" % n
         prereq, outs = 'main.c', [('file', n)]
@@ -172,7 +178,8 @@ def run_cycle(arg):
     ev = {'backend': backend, 'role': role, 'name': syms(n),
           'in_scope': in_scope, 'configure_exit': -1, 'created': False,
           'uptodate': False, 'noticed': False, 'cleaned': False,
-          'installed': True, 'uninstalled': True, 'note': ''}
+          'installed': True, 'uninstalled': True, 'hdrgone': True,
+          'note': ''}
     try:
         files, prereq, outs = project_for(role, n)
         p = regen.Proj(files, backend=backend)
@@ -222,6 +229,19 @@ def run_cycle(arg):
         ev['noticed'] = rc == 0 and all(a != b for a, b in zip(m1, m2))
         if not ev['noticed']:
             ev['note'] = out[-300:]
+        if role == 'header':
+            # the source stops including the header, is rebuilt, the header
+            # is deleted: the next build must still go through
+            p.tick()
+            regen.write(os.path.join(p.src, 'main.c'),
+                        'int main(void){return 0;}\n')
+            rc, out = p.tool()
+            p.tick()
+            os.remove(os.path.join(p.src, n + '.h'))
+            rc2, out2 = p.tool()
+            ev['hdrgone'] = rc == 0 and rc2 == 0
+            if not ev['hdrgone'] and not ev['note']:
+                ev['note'] = (out + out2)[-300:]
         if role in ('install', 'insthdr'):
             want = stage + os.path.join(prefix, 'bin', n) \
                 if role == 'install' else \
@@ -258,7 +278,7 @@ def names_for(ck):
     for c in PUNCT:
         names += ['xx%sy' % c, '%sx' % c, 'x%s' % c]
     two = [a + b for a in PUNCT for b in PUNCT]
-    names += ['x(y)z', 'x()', '(x)', 'xx  y', 'x   y']
+    names += ['x(y)z', 'x()', '(x)', 'xx  y', 'x   y', 'xx%y%z', '%x%']
     names += ['x%sy' % t for t in rnd.sample(two, 40 if ck.quick else 500)]
     names += [''.join(rnd.choice(PUNCT + ['a', '1']) for _ in range(
         rnd.randint(3, 6))) for _ in range(20 if ck.quick else 400)]
@@ -307,6 +327,10 @@ def main(argv):
             if n.startswith('xx'):
                 roles = ROLES
             for r in roles:
+                # (the stub compiler's "// deps:" line is blank-separated;
+                # header names with blanks are C07's, with the real gcc)
+                if r == 'header' and any(c.isspace() for c in n):
+                    continue
                 jobs.append((b, r, n, scope[(b, n)]))
     res = pmap(run_cycle, jobs)
     traces = [{'id': i + 1, 'events': [
@@ -343,6 +367,8 @@ def main(argv):
             bad.append('colon')
         key = 'C04:%s:bad=%s' % (b, '+'.join(bad)) if bad else \
             'C04:%s:%s:none:%s' % (b, r, chars)
+        if bad == ['percent']:      # identified by role and clause
+            key = 'C04:%s:percent:%s:%s' % (b, r, info[0])
         ck.report(key,
                   '%s: backend %s role %s name %r: %s' % (
                       info[0], b, r, n, e.get('note', '')[-200:]),
